@@ -630,7 +630,7 @@ func (w *world) closeWithParked(out *verifh.Out) {
 	baseS := stat(srv.rm)
 	w.paused.Store(true)
 	time.Sleep(10 * time.Millisecond)
-	n := w.cfg.queueLen + 1
+	n := w.cfg.queueLen + 3 // one may be taken by an Accept call already pending in the harness loop; the surplus parks at the threshold
 	var wg sync.WaitGroup
 	var mu sync.Mutex
 	var conns []transport.CapableConn
